@@ -54,6 +54,14 @@ def parseOp (ts : List String) : Option Op :=
   | ["len"] => some .len
   | ["eql", l] => some (.eqList (decList l))
   | ["nat", c] => some (.toNative (c == "1"))
+  | ["rev"] => some .reverse
+  | ["revd"] => some .reversed
+  | ["pop", i] => i.toInt?.map .pop
+  | ["remove", a] => some (.remove (decItem a))
+  | ["index", a] => some (.index (decItem a))
+  | ["count", a] => some (.count (decItem a))
+  | ["contains", a] => some (.contains (decItem a))
+  | ["clear"] => some .clear
   | _ => none
 
 def parseHOp (ts : List String) : Option HOp :=
@@ -84,6 +92,7 @@ def showOut : Out → String
   | .bool b => "B" ++ boolStr b
   | .arg a => "A" ++ encItem a
   | .indexError => "E"
+  | .valueError => "V"
 
 def showState (s : State) : String :=
   s!"C{encList s.container}!P{encList s.pre}!Q{encList s.post}!N{boolStr s.noc}"
